@@ -48,7 +48,7 @@ _INSTANCES = ["A()", "B()", "C()", "D(1)", 'D(1, "y")', "G()", "WithX()", "Close
               # are permuted or partially applied)
               "Rev()", 'Fwd({1: "a"})', 'Fwd({"a": 1})', "LS([1])", 'LS(["a"])',
               # instances of subclasses of the promoted numeric types
-              "FSub(2.5)", "ISub(7)"]
+              "FSub(2.5)", "ISub(7)", "MyNode()", "MyEdge()"]
 _CLASSES = ["int", "bool", "str", "float", "A", "B", "C", "type", "object", "E", "list", "D"]
 _FUNCS = ["len", "cond", "ident", "(lambda x: x)"]
 _MODULES = ["os", "math"]
@@ -85,7 +85,7 @@ LEAF_TYPES = [
     "N", "TD", "TDp", "TDn", "HasX", "SupportsClose", "type",
     "Literal[1]", "Literal[True]", 'Literal["a"]', "Literal[0, 1]", "Literal[E.a]", 'Literal[b"a"]',
     "Literal[None]", 'Literal[1, "a"]', "Literal[E.a, E.b]", "tuple[()]",
-    "Rev[int, str]", "Rev[str, int]", "Fwd[int, str]", "IntKeyed[str]", "LS[int]", "FSub", "ISub", "Perm", "Dyn.Inner",
+    "Rev[int, str]", "Rev[str, int]", "Fwd[int, str]", "IntKeyed[str]", "LS[int]", "FSub", "ISub", "Perm", "Dyn.Inner", "NodeP", "EdgeP",
     # unions of ten or more members (pyanalyze switches to an indexed lookup there), with literals that are equal
     # across types in both orders
     "Literal[0, 1, 2, 3, 4, 5, 6, 7, 8, False, True]", 'Literal[False, True, 0, 1, 2, 3, 4, 5, 6, 7, 8, "a"]',
